@@ -3,6 +3,10 @@
 //! usage: sim_io <C05|C12|C15> [--tier quick|thorough] [--runs N] [--seed S] [--workers W]
 //!        sim_io <id> --replay <file>
 
+mod alloc;
+mod c05;
+mod c05_faults;
+mod c05_work;
 mod c12;
 mod c15;
 mod dump;
@@ -11,12 +15,16 @@ mod zoo;
 
 use simcore::{harness_error, Args};
 
+#[global_allocator]
+static GLOBAL: alloc::CountingAlloc = alloc::CountingAlloc;
+
 fn main() {
     let args = Args::from_env();
     simcore::panics::install_hook();
     let rc = match args.positional(0) {
         Some("C15") => c15::main(&args),
         Some("C12") => c12::main(&args),
+        Some("C05") => c05::main(&args),
         other => harness_error(&format!("sim_io: unknown property {other:?}")),
     };
     std::process::exit(rc);
